@@ -58,6 +58,12 @@
 #ifndef EAV_VERIF_STEP_is_ipv6
 #define EAV_VERIF_STEP_is_ipv6
 #endif
+#ifndef EAV_VERIF_AT_is_ipv6_colon
+#define EAV_VERIF_AT_is_ipv6_colon
+#endif
+#ifndef EAV_VERIF_AT_is_ipv6_hex
+#define EAV_VERIF_AT_is_ipv6_hex
+#endif
 #ifndef EAV_VERIF_LOOP_is_tld
 #define EAV_VERIF_LOOP_is_tld
 #endif
